@@ -1304,4 +1304,111 @@ def accumulateSparse (k : DKind) (scalar : Int) (pd dd : List Nat) (xs ys : List
     | .trap => .trap
     | .ok (ys', _, _) => .ok (xs', ys', flags')
 
+/-! ## `find_glyph_and_point_count`, `Gvar::phantom_point_deltas` (gvar.rs)
+
+The glyf / loca side (`loca.get_glyf`, `SimpleGlyph::num_points`, `CompositeGlyph::components`) belongs
+to the glyf sub-system; here it is a parameter `glyph : gid → GR` (what `get_glyf` + the accessors
+answer), and the recursion over `USE_MY_METRICS` components and the accumulation are modelled. -/
+
+/-- what `loca.get_glyf(gid, glyf)` answers, as far as `find_glyph_and_point_count` looks -/
+inductive GR where
+  /-- `Err(e)` -/
+  | err (e : VErr)
+  /-- `Ok(None)`: an empty glyph -/
+  | none
+  /-- a simple glyph with `num_points()` points -/
+  | simple (n : Nat)
+  /-- a composite glyph: `(USE_MY_METRICS, component glyph id)` per component, in order -/
+  | composite (comps : List (Bool × Nat))
+  deriving Repr, DecidableEq
+
+/-- the `for component in composite.components()` loop: `count += 1` (unchecked `usize`), and the first
+component with `USE_MY_METRICS` ends it.  `some (count, target)`; `none` = overflow panic. -/
+def firstMetrics : List (Bool × Nat) → Nat → Option (Nat × Option Nat)
+  | [], count => some (count, none)
+  | (flag, g) :: rest, count =>
+    match uadd count 1 with
+    | none => none
+    | some c => if flag then some (c, some g) else firstMetrics rest c
+
+/-- `find_glyph_and_point_count(glyf, loca, glyph_id, recurse_depth)`: `recurse_depth > 64` →
+`MalformedData`; fuel 66 always suffices -/
+def findGlyph (glyph : Nat → GR) : Nat → Nat → Nat → R (Nat × Nat)
+  | 0, _, _ => .trap
+  | fuel + 1, gid, depth =>
+    if depth > 64 then .err .malformed
+    else
+      match glyph gid with
+      | .err e => .err e
+      | .none => .ok (gid, 0)
+      | .simple n => .ok (gid, n)
+      | .composite comps =>
+        match firstMetrics comps 0 with
+        | none => .trap
+        | some (count, none) => .ok (gid, count)
+        | some (_, some g') =>
+          match uadd depth 1 with
+          | none => .trap
+          | some d' => findGlyph glyph fuel g' d'
+
+/-- `tuple_delta.apply_scalar::<Fixed>(scalar)`: `Point::new(x, y).map(Fixed::from_i32) * scalar` -/
+def applyScalarFixed (x y scalar : Int) : Option (Int × Int) :=
+  match Checked.fxFromI32 x, Checked.fxFromI32 y with
+  | some fx, some fy =>
+    match Checked.fxMul fx scalar, Checked.fxMul fy scalar with
+    | some px, some py => some (px, py)
+    | _, _ => none
+  | _, _ => none
+
+/-- the inner loop `for tuple_delta in tuple.deltas()`: `if phantom_range.contains(&ix) {
+phantom_deltas[ix - phantom_range.start] += … }` (`Point<Fixed>` `+=` wraps); `none` = panic -/
+def phantomApply (pc e : Nat) (scalar : Int) : List (Nat × Int × Int) → List (Int × Int) → Option (List (Int × Int))
+  | [], ph => some ph
+  | (ix, x, y) :: rest, ph =>
+    if pc ≤ ix ∧ ix < e then
+      match ph[ix - pc]?, applyScalarFixed x y scalar with
+      | some cur, some d =>
+        phantomApply pc e scalar rest (ph.set (ix - pc) (Checked.fxAdd cur.1 d.1, Checked.fxAdd cur.2 d.2))
+      | _, _ => none
+    else phantomApply pc e scalar rest ph
+
+/-- the outer loop over `var_data.active_tuples_at(coords)` -/
+def phantomLoop (p : TVD) (pc e : Nat) : List (TV × Int) → List (Int × Int) → R (List (Int × Int))
+  | [], ph => .ok ph
+  | (t, scalar) :: rest, ph =>
+    match t.deltasTrace p true with
+    | none => .trap
+    | some evs =>
+      if trapped evs then .trap
+      else
+        match phantomApply pc e scalar (items evs) ph with
+        | none => .trap
+        | some ph' => phantomLoop p pc e rest ph'
+
+/-- `Gvar::phantom_point_deltas(glyf, loca, coords, glyph_id)`: `ok none` = no variation data,
+`ok (some [left, right, top, bottom])` -/
+def Gv.phantomPointDeltas (g : Gv) (glyph : Nat → GR) (coords : List Int) (gid : Nat) :
+    R (Option (List (Int × Int))) :=
+  match findGlyph glyph 66 gid 0 with
+  | .err e => .err e
+  | .trap => .trap
+  | .ok (gid', pc) =>
+    match uadd pc 4 with
+    | none => .trap
+    | some e =>
+      match g.glyphVariationData gid' with
+      | .err er => .err er
+      | .trap => .trap
+      | .ok none => .ok none
+      | .ok (some p) =>
+        match activeTuples p coords with
+        | none => .trap
+        | some .trap => .trap
+        | some (.err er) => .err er
+        | some (.ok l) =>
+          match phantomLoop p pc e l [(0, 0), (0, 0), (0, 0), (0, 0)] with
+          | .ok ph => .ok (some ph)
+          | .err er => .err er
+          | .trap => .trap
+
 end FontVerif.HandVar
